@@ -10,6 +10,7 @@ var allSpecs = []HarnessSpec{
 	{Prop: "C01", Func: "ZZ_C01_Deps", Tag: "shape=2", POR: true, Replay: "native", Params: map[string]int{"shape": 2, "maxconc": 0, "failing": 1, "__coarse": 1}},
 	{Prop: "C01", Func: "ZZ_C01_Deps", Tag: "shape=3", POR: true, Replay: "native", Params: map[string]int{"shape": 3, "maxconc": 0, "failing": 1, "__coarse": 1}},
 	{Prop: "C01", Func: "ZZ_C01_Deps", Tag: "shape=4", POR: true, Replay: "native", Params: map[string]int{"shape": 4, "maxconc": 0, "failing": 1, "__coarse": 1}},
+	{Prop: "C01", Func: "ZZ_C01_Deps", Tag: "shape=6", POR: true, Replay: "native", Params: map[string]int{"shape": 6, "maxconc": 0, "failing": 2, "__coarse": 1}},
 	{Prop: "C02", Func: "ZZ_C02_Order", POR: true, Replay: "native", Twin: true, Params: map[string]int{"maxconc": 0, "__coarse": 1}},
 	{Prop: "C02", Func: "ZZ_C02_Compile", Replay: "native", Twin: true},
 	{Prop: "C03", Func: "ZZ_C03_FailStop", Tag: "shape=0", POR: true, Replay: "native", Twin: true, Params: map[string]int{"shape": 0, "__coarse": 1}},
@@ -19,6 +20,9 @@ var allSpecs = []HarnessSpec{
 	{Prop: "C04", Func: "ZZ_H_History", Tag: "prop=4", POR: true, Replay: "native", Twin: true, Params: map[string]int{"prop": 4, "steps": 2, "__coarse": 1}, TParams: map[string]int{"steps": 3}},
 	{Prop: "C05", Func: "ZZ_H_History", Tag: "prop=5", POR: true, Replay: "native", Twin: true, Params: map[string]int{"prop": 5, "steps": 2, "__coarse": 1}, TParams: map[string]int{"steps": 3}},
 	{Prop: "C12", Func: "ZZ_H_History", Tag: "prop=12", POR: true, Replay: "native", Twin: true, Params: map[string]int{"prop": 12, "steps": 2, "__coarse": 1}, TParams: map[string]int{"steps": 3}},
+	{Prop: "C03", Func: "ZZ_C03_FailStop", Tag: "shape=4", POR: true, Replay: "native", Params: map[string]int{"shape": 4, "failing": 1, "__coarse": 1}},
+	{Prop: "C06", Func: "ZZ_C03_FailStop", Tag: "shape=4", POR: true, Replay: "native", Params: map[string]int{"shape": 4, "failing": 1, "__coarse": 1}},
+	{Prop: "C06", Func: "ZZ_C01_Deps", Tag: "shape=6", POR: true, Replay: "native", Params: map[string]int{"shape": 6, "maxconc": 0, "failing": 2, "__coarse": 1}},
 	{Prop: "C06", Func: "ZZ_C06_RunModes", POR: true, Replay: "native", Twin: true, Params: map[string]int{"failing": 1, "__coarse": 1}},
 	{Prop: "C07", Func: "ZZ_C07_Concurrency", Tag: "shape=1", POR: true, Replay: "native", Twin: true, MustReach: []string{"independent-deps-overlap"}, Params: map[string]int{"shape": 1, "maxconc": 2, "__coarse": 1}},
 	{Prop: "C07", Func: "ZZ_C07_Concurrency", Tag: "shape=2", POR: true, Replay: "native", Params: map[string]int{"shape": 2, "maxconc": 2, "__coarse": 1}},
@@ -29,6 +33,7 @@ var allSpecs = []HarnessSpec{
 	{Prop: "C14", Func: "ZZ_C14_Defer", POR: true, Replay: "native", Twin: true, Params: map[string]int{"__coarse": 1}},
 	{Prop: "C08", Pkg: "taskfile/ast", Func: "ZZ_C08_DeepCopy", Replay: "native"},
 	{Prop: "C08", Pkg: "taskfile/ast", Func: "ZZ_C08_Merge", Replay: "native"},
+	{Prop: "C08", Pkg: "taskfile/ast", Func: "ZZ_C08_IncludedTwice", Replay: "native", Twin: true},
 	{Prop: "C10", Pkg: "", Func: "ZZ_C10_Vars", Replay: "native", Twin: true},
 	{Prop: "C10", Pkg: "", Func: "ZZ_C10_Env", Replay: "native", Twin: true},
 	{Prop: "C15", Pkg: "", Func: "ZZ_C15_Resolve", Replay: "native", Twin: true, Params: map[string]int{"tasks": 2, "namelen": 3, "reqlen": 4}, TParams: map[string]int{"tasks": 3, "namelen": 3, "reqlen": 4}},
